@@ -15,6 +15,8 @@ import (
 	"io/ioutil"
 	"path/filepath"
 	"strconv"
+
+	"github.com/douban/gobeansdb/quicklz"
 )
 
 type refRec struct {
@@ -71,7 +73,15 @@ func (r *runner) refScanAll() ev {
 		for _, x := range refScanBytes(b) {
 			val := 0
 			if x.Ver > 0 {
-				val = r.identify(x.Body, x.Flag)
+				body := x.Body
+				if x.Flag&FLAG_COMPRESS != 0 {
+					// a server-compressed record: the value is identified by its decompressed bytes (quicklz is the one
+					// piece of the repository this scanner borrows; an undecodable body stays unidentified = -1)
+					if d, err := quicklz.DecompressSafe(body); err == nil {
+						body = d
+					}
+				}
+				val = r.identify(body, x.Flag)
 			}
 			l = append(l, []interface{}{mk(x.Key), x.Ver, val, x.Off, x.NBlk})
 		}
